@@ -94,6 +94,35 @@ def r1_random_dictator(ctx):
               "winner selection / recording / removal changed")
 
 
+def _read_through(f, pm, d, CV):
+    """The probability argument of draw d as one expression: the plain statements that precede the draw in its block are
+    read through (x = e; x /= y; ...).  None when the block holds anything else before the draw."""
+    from vk.loopsym import IterationExec, Unsupported
+    st = astx.stmt_of(d.call, pm)
+    blk = pm.get(st)
+    body = None
+    for fld in ("body", "orelse"):
+        lst = getattr(blk, fld, None)
+        if isinstance(lst, list) and any(x is st for x in lst):
+            body = lst[:next(i for i, x in enumerate(lst) if x is st)]
+    if body is None or any(isinstance(x, (ast.If, ast.For, ast.While, ast.Try, ast.With, ast.Return, ast.Raise)) for x in body):
+        return None
+    ex = IterationExec(f.node, body, lists=set())
+    try:
+        outs = ex.run()
+    except Unsupported:
+        return None
+    if len(outs) != 1:
+        return None
+    e = ex.sub(d.probs, outs[0].state)
+    if CV:
+        dv = astx.unique_def(f.node, CV)
+        if dv is not None:
+            from vk.seqeval import subst
+            e = subst(e, {CV: dv})
+    return astx.u(e)
+
+
 def r2_boosted(ctx):
     prog = ctx.prog
     f = prog.find_func("BoostedRandomDictator._run_step")
@@ -107,7 +136,9 @@ def r2_boosted(ctx):
     rcs0 = astx.calls_in(f.node, "remove_cand")
     W = astx.u(rcs0[0].args[0]) if len(rcs0) == 1 and rcs0[0].args and isinstance(rcs0[0].args[0], ast.Name) else None
     rc = astx.unique_def(f.node, RC) if RC else None
-    ctx.check(rc is not None, f, rc or f.node, "c = number of candidates of the current profile", "", "no local holds profile.candidates: the candidate count of the mixing test is taken from something else")
+    # (the count may be taken from profile.candidates directly; what the tests compare is checked below under the name NC)
+    direct = any(astx.u(n) == f"len({prof}.candidates)" for n in astx.walk_own(f.node) if isinstance(n, ast.Call))
+    ctx.check(rc is not None or direct, f, rc or f.node, "c = number of candidates of the current profile", "", "no local holds profile.candidates: the candidate count of the mixing test is taken from something else")
     # the mixing draw, found by what it is (the one random.uniform call of the step), whether or not it is held in a local
     uni = [c for c in astx.calls_in(f.node) if prog.resolve_expr(f.module, c.func) == "random.uniform"]
     u = uni[0] if len(uni) == 1 else None
@@ -139,9 +170,20 @@ def r2_boosted(ctx):
     # p pipeline: values -> / total -> ^2 -> / sum
     steps = [astx.u(st) for st, dv in astx.defs_of(f.node, astx.u(d.probs))]
     want_steps = [f"p = np.array(list({CV}.values())).astype('float64')", f"p /= float({prof}.total_ballot_wt)", "p = np.power(p, 2)", "p /= np.sum(p)"]
+    if steps != want_steps:
+        # the same pipeline under other names / in fewer or more steps: the statements of the branch are read through
+        # and the value handed to the draw is compared as one expression
+        got = _read_through(f, pm, d, CV)
+        tallies = f"np.array(list({f.params[2]}.scores.values())).astype('float64')"
+        sq = f"np.power({tallies} / float({prof}.total_ballot_wt), 2)"
+        want_expr = astx.A(f"{sq} / np.sum({sq})")
+        if got is not None and got == want_expr:
+            steps = want_steps
+        elif got is not None:
+            steps = [got[:200]]
     ctx.check(steps == want_steps, f, d.call, "squares law: (tally / total)^2 renormalised by its sum", str(steps), f"probability pipeline is {steps}; documented {want_steps}")
     # single candidate
-    one = [st for st, dv in astx.defs_of(f.node, W or "?") if dv is not None and astx.u(dv) == f"{RC}[0]"]
+    one = [st for st, dv in astx.defs_of(f.node, W or "?") if dv is not None and astx.u(dv) in (f"{RC}[0]", f"{prof}.candidates[0]")]
     good = len(one) == 1 and literals(N.conj(astx.path_condition(f.node, one[0], pm))) == {"eq(NC, 1)"}
     ctx.check(good, f, one[0] if one else f.node, "a single remaining candidate wins outright", "", "single-candidate branch changed")
     # dictator branch: the branch of the mixing test that holds the weighted ballot draw
@@ -209,6 +251,7 @@ FAULTS = [
     ("BRD threshold 1/c", [(BRD, "        elif u <= 1 / (len(remaining_cands) - 1):", "        elif u <= 1 / len(remaining_cands):")], "C17.R2"),
     ("BRD threshold inverted", [(BRD, "        elif u <= 1 / (len(remaining_cands) - 1):", "        elif u > 1 / (len(remaining_cands) - 1):")], "C17.R2"),
     ("BRD cubes", [(BRD, "            p = np.power(p, 2)", "            p = np.power(p, 3)")], "C17.R2"),
+    ("BRD pipeline under two names, shares not divided by the total", [(BRD, "            p = np.array(list(candidate_votes.values())).astype(\"float64\")\n            p /= float(profile.total_ballot_wt)\n            p = np.power(p, 2)\n            p /= np.sum(p)\n            winning_candidate = np.random.choice(list(candidate_votes.keys()), p=p)", "            shares = np.array(list(candidate_votes.values())).astype(\"float64\")\n            probs = np.power(shares, 2)\n            probs /= float(profile.total_ballot_wt)\n            winning_candidate = np.random.choice(list(candidate_votes.keys()), p=probs)")], "C17.R2"),
     ("BRD probabilities sorted", [(BRD, "            p /= np.sum(p)\n", "            p /= np.sum(p)\n            p = np.sort(p)\n")], "C17.R2"),
     ("BRD squares over initial tallies", [(BRD, "            candidate_votes = prev_state.scores", "            candidate_votes = self.election_states[0].scores")], "C17.R2"),
     ("BRD dictator draws unweighted", [(BRD, "random_ballot = random.choices(profile.ballots, weights=weights, k=1)[0]", "random_ballot = random.choices(profile.ballots, k=1)[0]")], "C17.R2"),
@@ -216,5 +259,6 @@ FAULTS = [
     ("tiebreak sorted not sampled", [(UT, "frozenset({c}) for c in random.sample(list(r_set), k=len(r_set))", "frozenset({c}) for c in sorted(r_set)")], "C17.R3"),
 ]
 BENIGN = [
+    ("BRD pipeline under two names", [(BRD, "            p = np.array(list(candidate_votes.values())).astype(\"float64\")\n            p /= float(profile.total_ballot_wt)\n            p = np.power(p, 2)\n            p /= np.sum(p)\n            winning_candidate = np.random.choice(list(candidate_votes.keys()), p=p)", "            shares = np.array(list(candidate_votes.values())).astype(\"float64\")\n            shares /= float(profile.total_ballot_wt)\n            probs = np.power(shares, 2)\n            probs /= np.sum(probs)\n            winning_candidate = np.random.choice(list(candidate_votes.keys()), p=probs)")]),
     ("BRD threshold rearranged", [(BRD, "        elif u <= 1 / (len(remaining_cands) - 1):", "        elif 1 / (len(remaining_cands) - 1) >= u:")]),
 ]
